@@ -5,6 +5,8 @@
 #![warn(clippy::pedantic, clippy::cargo, clippy::unwrap_used)]
 #![forbid(unsafe_code)]
 #![allow(clippy::missing_panics_doc, clippy::missing_errors_doc)]
+// `penguin_rs_verif` guards verification-only hooks (off by default, set with `--cfg`)
+#![allow(unexpected_cfgs)]
 #![cfg_attr(not(all(feature = "client", feature = "server")), allow(dead_code))]
 #![cfg(any(feature = "client", feature = "server"))]
 
